@@ -460,6 +460,22 @@ def o_mpu(w, tr):
 def o_callbacks(w, tr):
     """C08."""
     out = []
+    if w.sched.outcome == 'deadlock':
+        # "on_done runs exactly once in every outcome": the user waits forever for a transfer whose
+        # on_done never ran although none of its requests is in flight any more
+        for info in w.transfers:
+            idx = info['idx']
+            if idx in w.outcomes:
+                continue
+            for sub in w.subs.get(idx, []):
+                d = [e for e in tr.ev('cb.done') if e[3]['tid'] == idx and e[3]['sub'] == sub.name]
+                inflight = [c for c in tr.calls_of.get(idx, []) if c['begin'] is not None and c['end'] is None]
+                if not d and not inflight:
+                    out.append(('C08:on_done-never-runs',
+                                f'transfer {idx} sub {sub.name}: every request returned, nothing is running, and on_done was never called; '
+                                f'blocked: {w.sched.outcome_detail}'))
+                    return out
+        return out
     if w.sched.outcome != 'ok':
         return out
     for info in w.transfers:
